@@ -208,9 +208,16 @@ def run(case):
         counters['roundtrips'] = 1
     elif kind == 'embed':
         g = variant_graph(rng, aa, case['variant'])
+        e2e = case['variant'] == 'resolved' and case['sub_seed'] % 2 == 0
         try:
             np.random.seed(case['sub_seed'] % 2 ** 31)
-            out = embed_3d_via_rdkit(g)
+            if e2e:
+                # the documented one-call route: embed the atoms, then place the beads
+                from cgsmiles.coordinates import embedd_cg_molecule_via_rdkit
+                g = aa
+                embedd_cg_molecule_via_rdkit(cg, aa)
+            else:
+                out = embed_3d_via_rdkit(g)
             bad = None
             ratios = []
             for n in g.nodes:
@@ -229,6 +236,20 @@ def run(case):
                     if not 0.70 <= ratio <= 1.25:
                         bad = ('c18.embed_bond_length', f'{txt} [{case["variant"]}]: bonded atoms {a} ({ea}) and {b} ({eb}) are {dist:.2f} A apart = {ratio:.2f} x the sum of their covalent radii')
                         break
+            if bad is None and e2e:
+                for k in cg.nodes:
+                    gr = cg.nodes[k].get('graph')
+                    if gr is None or not len(gr):
+                        continue
+                    w = {n: gr.nodes[n].get('weight', 1) for n in gr.nodes}
+                    if sum(w.values()) <= 0:
+                        continue
+                    want = sum(w[n] * np.asarray(aa.nodes[n]['position'], dtype=float) for n in gr.nodes) / sum(w.values())
+                    got = cg.nodes[k].get('position')
+                    if got is None or not np.allclose(np.asarray(got, dtype=float), want, atol=1e-8, rtol=0):
+                        bad = ('c18.bead_not_weighted_mean', f'{txt} [embed + forward map in one call]: bead {k} at {got}, weighted mean of its embedded atoms {want.tolist()}')
+                        break
+                counters['e2e_embed_and_map'] = 1
             if bad:
                 viol.append(V(*bad))
             counters['embeddings'] = 1
